@@ -658,7 +658,7 @@ var opTable = []struct {
 	w    int
 }{
 	{"create", 24}, {"revoke-existing", 12}, {"revoke-unknown", 6}, {"revoke-admin", 3}, {"revoke-revoked", 5},
-	{"http-auth", 12}, {"ws-auth", 10}, {"restart", 4}, {"create-as-user", 2}, {"revoke-as-user", 3}, {"revoke-commit-fails", 3}, {"create-insert-fails", 2}, {"revoke-delete-fails", 2}, {"create-burst", 3}, {"ws-many", 2}, {"revoke-during-lookups", 3},
+	{"http-auth", 12}, {"ws-auth", 10}, {"restart", 4}, {"create-as-user", 2}, {"revoke-as-user", 3}, {"revoke-commit-fails", 3}, {"create-insert-fails", 2}, {"revoke-delete-fails", 2}, {"create-burst", 3}, {"ws-many", 2}, {"revoke-during-lookups", 3}, {"lookup-next-to-open-write-transaction", 3},
 }
 
 // lockEvery: one sequence in lockEvery additionally revokes one token while a reader holds a lock (a busy timeout each)
@@ -700,6 +700,21 @@ func holdExclusiveLock(path string) (release func(), err error) {
 	}
 	db.SetMaxOpenConns(1)
 	if _, err := db.Exec("BEGIN EXCLUSIVE"); err != nil {
+		_ = db.Close()
+		return nil, err
+	}
+	return func() { _, _ = db.Exec("ROLLBACK"); _ = db.Close() }, nil
+}
+
+// holdWriteTransaction opens a second connection and begins a write transaction on it (BEGIN IMMEDIATE: the writer's
+// RESERVED lock, as held by a header import or a relabelling that has not committed yet). Readers are not held up by it.
+func holdWriteTransaction(path string) (release func(), err error) {
+	db, err := sqlx.Open("sqlite3", "file:"+path)
+	if err != nil {
+		return nil, err
+	}
+	db.SetMaxOpenConns(1)
+	if _, err := db.Exec("BEGIN IMMEDIATE"); err != nil {
 		_ = db.Close()
 		return nil, err
 	}
@@ -1001,6 +1016,26 @@ func (s *seq) run(rng *rand.Rand, n int) {
 			if code != 0 {
 				s.r.Count("revokes_under_exclusive_lock", 1)
 				s.r.Count(fmt.Sprintf("revokes_under_exclusive_lock_status_%dxx", code/100), 1)
+			}
+		case "lookup-next-to-open-write-transaction":
+			// another connection is in the middle of a write transaction (it holds the writer's lock, nothing committed
+			// yet): look-ups are reads and go on - an issued, unrevoked token authenticates as always
+			t, ti, ok := m.pick(rng, true)
+			if !ok {
+				continue
+			}
+			s.op(kind, "authenticate with #%d while a second connection holds a write transaction open", ti)
+			release, err := holdWriteTransaction(s.e.st.Path)
+			if err != nil {
+				s.r.Count("write_transaction_not_opened", 1)
+				continue
+			}
+			w := s.e.st.HTTP(http.MethodGet, accessPath, nil, bearer(t))
+			release()
+			s.r.Count("look_ups_next_to_an_open_write_transaction", 1)
+			if w.Code != http.StatusOK {
+				s.violate("valid-token-refused|next-to-an-open-write-transaction", fmt.Sprintf("while another connection held a write transaction open (BEGIN IMMEDIATE, nothing committed), GET %s with an issued, unrevoked token answered %d %s", accessPath, w.Code, clipBody(w.Body.String())), nil)
+				return
 			}
 		case "revoke-revoked":
 			t, ti, ok := m.pick(rng, false)
